@@ -84,6 +84,13 @@ def run(ctx):
     # to_conj_form advertises, for its two proofs, `input -> form` and `form -> input`: checked as the inductive step of its recursion
     conj_form_contract(ctx, py)
     nth_conjunct_contract(ctx, py)
+    # the other derived rules of the tautology library return proofs too (pairs of implications between a form and its normal form,
+    # a refutation from a clause list): their advertised conclusions are checked as inductive steps (shared with C09)
+    from .c09 import clauses_stage_contract, form_stage_contract, resolution_contract
+    form_stage_contract(ctx, py, 'propag_neg')
+    form_stage_contract(ctx, py, 'to_cnf')
+    clauses_stage_contract(ctx, py)
+    resolution_contract(ctx, py)
     # a reference lemma that left the analysed subset fails the run closed - unless a violation already explains it
     if broken and not any(not o['ok'] for o in ctx.obligations):
         ctx.require(False, broken[0])
